@@ -372,66 +372,107 @@ func (c *evalCtx) evalNumber(s *sg.Schema, n jsonx.Num, path string) {
 	if s.Min == nil && s.Max == nil && s.ExMin == nil && s.ExMax == nil && s.MultipleOf == nil {
 		return
 	}
-	x := n.Float()
 	t, _, _ := s.NonNullType()
 	isInt := t == "integer"
-	tr := func(b float64) float64 {
-		if isInt && c.d.IntBoundTrunc {
-			return math.Trunc(b)
-		}
-		return b
-	}
-	if isInt && !c.d.IntBoundTrunc {
-		// Pure model compares exactly; nothing to do: float64 compare of int64-range values with
-		// bounds is exact for |x| < 2^53; beyond that the harness only uses bounds that are powers of two.
-		_ = 0
-	}
-	// Draft-4 boolean forms modify minimum/maximum; numeric forms are bounds of their own.
-	if s.Min != nil {
-		excl := false
-		if b, ok := s.ExMin.(bool); ok && b {
-			excl = true
-		}
-		m := tr(*s.Min)
-		if excl {
-			if !(x > m) {
-				c.fault("exclusiveMinimum", path)
+	if isInt {
+		// bounds at or beyond +-2^63 cannot be written exactly in a schema that is read as float64 (RFC 8259
+		// interoperability range, DESIGN §3.2); the tool's conversion there is the recorded finding int64-bound-overflow
+		for _, b := range []any{s.Min, s.Max, s.ExMin, s.ExMax} {
+			var f float64
+			switch t := b.(type) {
+			case *float64:
+				if t == nil {
+					continue
+				}
+				f = *t
+			case float64:
+				f = t
+			default:
+				continue
 			}
-		} else if !(x >= m) {
-			c.fault("minimum", path)
+			if math.Abs(f) >= 9223372036854775807 {
+				c.dontcare("integer-bound-at-or-beyond-2^63", path)
+				return
+			}
 		}
+	}
+	// Integers are compared exactly (documents may exceed 2^53); numbers as float64, like every JSON decoder in Go.
+	xr, _ := n.Rat()
+	if !isInt || xr == nil {
+		xr = new(big.Rat).SetFloat64(n.Float())
+		if xr == nil {
+			c.dontcare("number-not-finite", path)
+			return
+		}
+	}
+	// Effective lower/upper bound: the tighter of the stated ones, exclusive wins a tie (the statement's
+	// "intersection of all stated bounds"). The defect model IntBoundTrunc truncates the chosen constant toward zero.
+	type bnd struct {
+		v    float64
+		excl bool
+		rule string
+	}
+	pick := func(cands []bnd, lower bool) *bnd {
+		var best *bnd
+		for i := range cands {
+			c := &cands[i]
+			if best == nil {
+				best = c
+				continue
+			}
+			tighter := c.v > best.v
+			if !lower {
+				tighter = c.v < best.v
+			}
+			if tighter || (c.v == best.v && c.excl && !best.excl) {
+				best = c
+			}
+		}
+		return best
+	}
+	var lows, highs []bnd
+	if s.Min != nil {
+		b, _ := s.ExMin.(bool)
+		r := "minimum"
+		if b {
+			r = "exclusiveMinimum"
+		}
+		lows = append(lows, bnd{*s.Min, b, r})
 	}
 	if f, ok := s.ExMin.(float64); ok {
-		if c.d.IntBoundTrunc && isInt && f != math.Trunc(f) {
-			// tool: int64(f) with '>=' comparison
-			if !(x > math.Trunc(f)) {
-				c.fault("exclusiveMinimum", path)
-			}
-		} else if !(x > f) {
-			c.fault("exclusiveMinimum", path)
-		}
+		lows = append(lows, bnd{f, true, "exclusiveMinimum"})
 	}
 	if s.Max != nil {
-		excl := false
-		if b, ok := s.ExMax.(bool); ok && b {
-			excl = true
+		b, _ := s.ExMax.(bool)
+		r := "maximum"
+		if b {
+			r = "exclusiveMaximum"
 		}
-		m := tr(*s.Max)
-		if excl {
-			if !(x < m) {
-				c.fault("exclusiveMaximum", path)
-			}
-		} else if !(x <= m) {
-			c.fault("maximum", path)
-		}
+		highs = append(highs, bnd{*s.Max, b, r})
 	}
 	if f, ok := s.ExMax.(float64); ok {
-		if c.d.IntBoundTrunc && isInt && f != math.Trunc(f) {
-			if !(x < math.Trunc(f)) {
-				c.fault("exclusiveMaximum", path)
-			}
-		} else if !(x < f) {
-			c.fault("exclusiveMaximum", path)
+		highs = append(highs, bnd{f, true, "exclusiveMaximum"})
+	}
+	conv := func(b float64) *big.Rat {
+		if isInt && c.d.IntBoundTrunc {
+			b = math.Trunc(b)
+		}
+		r := new(big.Rat).SetFloat64(b)
+		if r == nil {
+			r = new(big.Rat)
+		}
+		return r
+	}
+	if lo := pick(lows, true); lo != nil {
+		cmp := xr.Cmp(conv(lo.v))
+		if cmp < 0 || (cmp == 0 && lo.excl) {
+			c.fault(lo.rule, path)
+		}
+	}
+	if hi := pick(highs, false); hi != nil {
+		cmp := xr.Cmp(conv(hi.v))
+		if cmp > 0 || (cmp == 0 && hi.excl) {
+			c.fault(hi.rule, path)
 		}
 	}
 	if s.MultipleOf != nil {
